@@ -53,6 +53,7 @@ RULE = (
     "> 0.5 px by the augmentation; for non-moving augmentations: the pixels changed); distinct = distinct case dict"
 )
 ASSUMPTIONS = [
+    "every Dataset object is read while a companion object of the same class (same labels, another input scale), constructed after it, is alive",
     "Dataset classes are also run on label sets over two videos of different frame sizes (24x36 and 48x72, both orders, size-matched to the larger one as the trainer does): every frame's keypoints must be registered with its own image",
     "blobs are Gaussians with sigma >= 1.5 output px after all scaling (source sigma 2 / 3 / 4.5 chosen from the nominal total scale), "
     "keypoints >= max(4, 1.5 sigma) px inside the source frame, pairwise >= 4.5 sigma apart, at non-dyadic sub-pixel offsets",
@@ -406,6 +407,13 @@ def get_dataset(c, env):
         env["ds_key"] = None
         env["ds"] = D.build_dataset(
             c["cls"], path, c["is_rgb"], case_maxhw(c), c["scale"], c["stride"], crop=c.get("crop"), anchor=c.get("anchor", 0), aug=ds_aug_config(c)
+        )
+        # a second dataset object of the same class, built AFTER the one under test from the same labels with another
+        # input scale, stays alive while the first is read (the trainer's train / validation pattern): state shared
+        # between dataset objects would make the first one hand out the companion's samples
+        env["ds_companion"] = None
+        env["ds_companion"] = D.build_dataset(
+            c["cls"], path, c["is_rgb"], case_maxhw(c), 0.5 if c["scale"] == 1.0 else 1.0, c["stride"], crop=c.get("crop"), anchor=c.get("anchor", 0), aug=None
         )
         env["ds_key"] = key
         env["ds_frames"] = D.mv_frames(sizes, sigmas, kind) if c.get("mv") else D.scene(H, W, sigma, kind)
